@@ -383,6 +383,24 @@ func rmCensus(m *sysl.Module) [][]string {
 				add("ep.rest", name, en, r.GetMethod().String(), r.GetPath())
 			}
 			attrs("ep", []string{name, en}, e.GetAttrs())
+			// parameters: a method parameter is located by the first tag it was declared with ("method" if it has none),
+			// the variables of a REST path by "path", the query parameters by "query"; each with its position
+			curApp = name
+			for pi, p := range e.GetParam() {
+				loc := "method"
+				if pats := p.GetType().GetAttrs()["patterns"].GetA().GetElt(); len(pats) > 0 {
+					loc = pats[0].GetS()
+				}
+				add("param", name, en, loc, strconv.Itoa(pi), p.GetName(), ty(p.GetType()))
+			}
+			if r := e.GetRestParams(); r != nil {
+				for pi, p := range r.GetUrlParam() {
+					add("param", name, en, "path", strconv.Itoa(pi), p.GetName(), ty(p.GetType()))
+				}
+				for pi, p := range r.GetQueryParam() {
+					add("param", name, en, "query", strconv.Itoa(pi), p.GetName(), ty(p.GetType()))
+				}
+			}
 			stmts(name, en, nil, e.GetStmt())
 		}
 	}
